@@ -79,5 +79,7 @@ void op_iolog (char **tok, int ntok) ;
 int cmd_routes (void) ;
 /* ledger.c (C16) */
 void op_ledger (char **tok, int ntok) ;
+/* meta.c (C12) */
+void op_meta (char **tok, int ntok) ;
 
 #endif
